@@ -203,6 +203,11 @@ class Supp:
             if bn == "einsum" and args and args[0].op == "const" and isinstance(args[0].value, str) and "..." in args[0].value and not t.kw:
                 # a contraction written with an ellipsis: the ellipsis (batch) dimensions of the operands broadcast
                 return self.union([self.of(a) for a in args[1:]])
+            if bn in ("dot", "tensordot", "inner", "outer", "kron", "vdot") and len(args) >= 2:
+                # a contraction removes axes, it never adds a shape source: the union is an upper bound of the support
+                return self.union([self.of(args[0]), self.of(args[1])])
+            if bn == "linspace" and len(args) >= 2:
+                return self.union([self.of(args[0]), self.of(args[1])])  # (num,) + broadcast(start, stop)
             if bn in ("linalg.inv", "linalg.pinv", "conj", "conjugate", "real", "imag") and args:
                 return self.of(args[0])
             if bn in ("sum", "mean", "prod", "max", "min", "amax", "amin", "any", "all", "nansum"):
